@@ -95,12 +95,27 @@ static void wait_handler(void *_c, int status, const struct rusage *ru)
 	c->delivered++;
 	if (WIFEXITED(status) || WIFSIGNALED(status))
 		c->dead_delivered = 1;
-	if (hbudget > 0 && mc_choose(2, MC_ACTION, "wait-handler-act")) {
-		hbudget--;
-		mc_obs("L%d:unreg-C%d(in handler)", me, ci);
-		iv_wait_interest_unregister(c->wi);
-		c->reg = 0;
-		free_interest(c);
+	if (hbudget > 0) {
+		/* 0: nothing; 1: unregister (and free) this interest; 2..: unregister another interest of this loop */
+		int others[NC], no = 0, k, a;
+		for (k = 0; k < NC; k++)
+			if (k != ci && C[k].reg && C[k].owner == me)
+				others[no++] = k;
+		a = mc_choose(2 + no, MC_ACTION, "wait-handler-act");
+		if (a == 1) {
+			hbudget--;
+			mc_obs("L%d:unreg-C%d(in handler)", me, ci);
+			iv_wait_interest_unregister(c->wi);
+			c->reg = 0;
+			free_interest(c);
+		} else if (a >= 2) {
+			struct child *o = &C[others[a - 2]];
+			hbudget--;
+			mc_obs("L%d:unreg-C%d(in handler of C%d)", me, others[a - 2], ci);
+			iv_wait_interest_unregister(o->wi);
+			o->reg = 0;
+			free_interest(o);
+		}
 	}
 }
 
